@@ -232,6 +232,28 @@ static int is_byte_array(const carquet_schema_t* sc, int col) {
     return 0;
 }
 
+/* the maximum definition level of column `col`, from the public accessors: the number of OPTIONAL / REPEATED nodes on the
+ * path root .. leaf (the schema is a depth-first list with child counts) */
+static int api_max_def(const carquet_schema_t* sc, int col) {
+    int n = carquet_schema_num_elements(sc), k = -1;
+    int left[64], defs[64], depth = 0;      /* stack of (children still to come, definition level below the node) */
+    for (int i = 0; i < n; i++) {
+        const carquet_schema_node_t* nd = carquet_schema_get_element(sc, i);
+        if (!nd) return 0;
+        int base = depth ? defs[depth - 1] : 0;
+        int own = (i == 0) ? 0 : (carquet_schema_node_repetition(nd) == CARQUET_REPETITION_REQUIRED ? 0 : 1);
+        if (depth) left[depth - 1]--;
+        if (carquet_schema_node_is_leaf(nd)) {
+            if (++k == col) return base + own;
+        } else if (depth < 63) {
+            const parquet_schema_element_t* pe = (const parquet_schema_element_t*)nd;
+            left[depth] = pe->num_children; defs[depth] = base + own; depth++;
+        }
+        while (depth && left[depth - 1] <= 0) depth--;
+    }
+    return 0;
+}
+
 /* The child leaves through _exit after an explicit leak check: exit() would let stdio reposition the
  * replay input stream it shares with the parent (lines replayed twice or cut short). */
 extern int __lsan_do_recoverable_leak_check(void) __attribute__((weak));
@@ -279,6 +301,18 @@ static void child_exercise(const char* path, const uint8_t* buf, size_t n, int m
             if (got > 0) {
                 int64_t nn = 0; for (int64_t i = 0; i < got; i++) { digest = (digest ^ (uint64_t)(uint16_t)d[i]) * 1099511628211ull; nn++; }
                 if (!ba) for (size_t i = 0; i < (size_t)got * vs; i++) digest = (digest ^ vals[i]) * 1099511628211ull;   /* may read uninitialised-but-in-bounds bytes */
+                else {
+                    /* BYTE_ARRAY: the dense entries (one per row at the maximum definition level; all rows of a column without
+                     * definition levels) must be byte ranges inside buffers the library owns: a negative length is no such
+                     * range, and every byte of every value is read here (exact-size buffers under ASan) */
+                    const carquet_byte_array_t* a = (const carquet_byte_array_t*)vals;
+                    int md = api_max_def(sc, c); int64_t dense = 0;
+                    for (int64_t i = 0; i < got; i++) if (md == 0 || d[i] == md) dense++;
+                    for (int64_t j = 0; j < dense; j++) {
+                        if (a[j].length < 0) { free(vals); free(d); free(r); child_exit(43); }
+                        for (int32_t q = 0; q < a[j].length; q++) digest = (digest ^ a[j].data[q]) * 1099511628211ull;
+                    }
+                }
             }
             free(vals); free(d); free(r);
             if (got < 0) { errs++; break; }
@@ -295,7 +329,12 @@ static void child_exercise(const char* path, const uint8_t* buf, size_t n, int m
           for (int it = 0; it < 12; it++) {
               carquet_row_batch_t* rb = NULL;
               carquet_status_t s = carquet_batch_reader_next(br, &rb);
-              if (s != CARQUET_OK || !rb) { if (rb) carquet_row_batch_free(rb); break; }
+              if (s != CARQUET_OK || !rb) {
+                  if (rb) carquet_row_batch_free(rb);
+                  /* a caller may ask again after an error or after the end (valid calls): the answer must again be a status */
+                  for (int again = 0; again < 2; again++) { rb = NULL; (void)!carquet_batch_reader_next(br, &rb); if (rb) carquet_row_batch_free(rb); }
+                  break;
+              }
               int64_t rows = carquet_row_batch_num_rows(rb); int32_t cols = carquet_row_batch_num_columns(rb);
               for (int32_t c = 0; c < cols && c < 5; c++) {
                   const void* data = NULL; const uint8_t* nulls = NULL; int64_t nv = 0;
@@ -488,6 +527,62 @@ static blob lz4_tail(hctx* h, int lit, int ml, int tail) {
     return r;
 }
 
+/* directed: a BYTE_ARRAY dictionary whose LAST entry announces a length of 2^32 - k (k = 1..4) with no bytes behind it.
+ * The scan of the dictionary page must refuse it ("4 + len" must not be computed in 32 bits: it would wrap to 0..3, the entry
+ * would pass, and every row using it would come back as a byte array of NEGATIVE length).  One REQUIRED BYTE_ARRAY column,
+ * two rows stored as dictionary indices 1, 0. */
+static blob dict_huge_len(uint32_t len) {
+    char path[128]; snprintf(path, sizeof path, "/tmp/verif_c04_%d_dh.parquet", (int)getpid());
+    blob none; none.b = h_alloc(0); none.n = 0;
+    carquet_error_t err; memset(&err, 0, sizeof err);
+    carquet_schema_t* sc = carquet_schema_create(&err);
+    (void)!carquet_schema_add_column(sc, "s", CARQUET_PHYSICAL_BYTE_ARRAY, NULL, CARQUET_REPETITION_REQUIRED, 0);
+    carquet_writer_options_t wo; carquet_writer_options_init(&wo); wo.compression = CARQUET_COMPRESSION_UNCOMPRESSED;
+    carquet_writer_t* w = carquet_writer_create(path, sc, &wo, &err);
+    if (!w) { carquet_schema_free(sc); return none; }
+    carquet_byte_array_t two[2]; two[0].data = (uint8_t*)"a"; two[0].length = 1; two[1].data = (uint8_t*)"b"; two[1].length = 1;
+    (void)!carquet_writer_write_batch(w, 0, two, 2, NULL, NULL);
+    int ok = carquet_writer_close(w) == CARQUET_OK; carquet_schema_free(sc);
+    if (!ok) return none;
+    FILE* f = fopen(path, "rb"); fseek(f, 0, SEEK_END); long n = ftell(f); fseek(f, 0, SEEK_SET);
+    uint8_t* fb = h_alloc((size_t)n); if (fread(fb, 1, (size_t)n, f) != (size_t)n) n = 0; fclose(f); unlink(path);
+    if (n < 12) { free(fb); return none; }
+    uint32_t flen = (uint32_t)fb[n - 8] | ((uint32_t)fb[n - 7] << 8) | ((uint32_t)fb[n - 6] << 16) | ((uint32_t)fb[n - 5] << 24);
+    size_t fstart = (size_t)n - 8 - flen;
+    carquet_arena_t arena; carquet_arena_init(&arena);
+    parquet_file_metadata_t md; parquet_page_header_t ph; size_t hs = 0;
+    if (parquet_parse_file_metadata(fb + fstart, flen, &arena, &md, &err) != CARQUET_OK || md.num_row_groups != 1 ||
+        parquet_parse_page_header(fb + 4, fstart - 4, &ph, &hs, &err) != CARQUET_OK) { carquet_arena_destroy(&arena); free(fb); return none; }
+    uint8_t dict[9] = { 1, 0, 0, 0, 'a', (uint8_t)len, (uint8_t)(len >> 8), (uint8_t)(len >> 16), (uint8_t)(len >> 24) };
+    uint8_t data[3] = { 0x01, 0x03, 0x01 };            /* index width 1; one bit-packed group: 1, 0, 0, ... */
+    parquet_page_header_t dh; memset(&dh, 0, sizeof dh);
+    dh.type = CARQUET_PAGE_DICTIONARY; dh.uncompressed_page_size = dh.compressed_page_size = 9;
+    dh.dictionary_page_header.num_values = 2; dh.dictionary_page_header.encoding = CARQUET_ENCODING_PLAIN;
+    ph.uncompressed_page_size = ph.compressed_page_size = 3; ph.has_crc = false;
+    ph.data_page_header.num_values = 2; ph.data_page_header.encoding = CARQUET_ENCODING_RLE_DICTIONARY;
+    memset(&ph.data_page_header.statistics, 0, sizeof ph.data_page_header.statistics); ph.data_page_header.has_statistics = false;
+    carquet_buffer_t h1, h2, fbuf; carquet_buffer_init(&h1); carquet_buffer_init(&h2); carquet_buffer_init(&fbuf);
+    blob r = none;
+    if (parquet_write_page_header(&dh, &h1, NULL) == CARQUET_OK && parquet_write_page_header(&ph, &h2, NULL) == CARQUET_OK) {
+        parquet_row_group_t* rg = &md.row_groups[0]; parquet_column_metadata_t* cm = &rg->columns[0].metadata;
+        size_t total = h1.size + 9 + h2.size + 3;
+        cm->has_dictionary_page_offset = true; cm->dictionary_page_offset = 4; cm->data_page_offset = (int64_t)(4 + h1.size + 9);
+        cm->total_compressed_size = cm->total_uncompressed_size = (int64_t)total; cm->num_values = 2;
+        rg->columns[0].file_offset = 4; rg->total_byte_size = (int64_t)total;
+        if (parquet_write_file_metadata(&md, &fbuf, NULL) == CARQUET_OK) {
+            r.n = 4 + total + fbuf.size + 8; r.b = h_alloc(r.n); uint8_t* p = r.b;
+            memcpy(p, "PAR1", 4); p += 4; memcpy(p, h1.data, h1.size); p += h1.size; memcpy(p, dict, 9); p += 9;
+            memcpy(p, h2.data, h2.size); p += h2.size; memcpy(p, data, 3); p += 3;
+            memcpy(p, fbuf.data, fbuf.size); p += fbuf.size;
+            uint32_t FL = (uint32_t)fbuf.size; *p++ = (uint8_t)FL; *p++ = (uint8_t)(FL >> 8); *p++ = (uint8_t)(FL >> 16); *p++ = (uint8_t)(FL >> 24);
+            memcpy(p, "PAR1", 4);
+            free(none.b);
+        }
+    }
+    carquet_buffer_destroy(&h1); carquet_buffer_destroy(&h2); carquet_buffer_destroy(&fbuf); carquet_arena_destroy(&arena); free(fb);
+    return r;
+}
+
 static void gen_c04(hctx* h) {
     long bases = h->thorough ? 40 : 6, per = h->thorough ? 400 : 60;
     if (h->shards > 1) bases = (bases + h->shards - 1) / h->shards;
@@ -522,6 +617,13 @@ static void gen_c04(hctx* h) {
           for (int i = 0; i < 7; i++) {
               char desc[48]; snprintf(desc, sizeof desc, "lz4tail_%d_%d_%d", lt[i][0], lt[i][1], lt[i][2]);
               blob f = lz4_tail(h, lt[i][0], lt[i][1], lt[i][2]);
+              if (f.n) for (int mode = 0; mode < 3; mode++) exercise(h, f, mode, desc);
+              free(f.b);
+          } }
+        { static const uint32_t dl[] = { 0xFFFFFFFFu, 0xFFFFFFFEu, 0xFFFFFFFDu, 0xFFFFFFFCu, 0xFFFFFFFBu, 0x7FFFFFFFu, 0x80000000u, 0u };
+          for (int i = 0; i < 8; i++) {
+              char desc[48]; snprintf(desc, sizeof desc, "dicthugelen_%u", dl[i]);
+              blob f = dict_huge_len(dl[i]);
               if (f.n) for (int mode = 0; mode < 3; mode++) exercise(h, f, mode, desc);
               free(f.b);
           } }
